@@ -139,7 +139,7 @@ let hi2 = lazy (read_bin (!romdir ^ "/HI_ROM_V2.bin"))
 let do_op (o : op) (h : hstate) = run_op (Lazy.force lo1) (Lazy.force hi1) (Lazy.force lo2) (Lazy.force hi2) o h
 
 (* ---- token -> op -------------------------------------------------------- *)
-type tok = Op of op | Run of int | Snap | Final
+type tok = Op of op | Run of int | Snap | Final | Note
 
 let parse_tok (t : string) : tok =
   let f = Array.of_list (String.split_on_char ':' t) in
@@ -179,6 +179,7 @@ let parse_tok (t : string) : tok =
   | "do" -> Op OpDuartOut
   | "ds" -> Snap
   | "fs" -> Final
+  | "X" -> Note
   | _ -> failwith ("unknown op " ^ t)
 
 let obs_str (tk : string) (o : obs) : string =
@@ -271,6 +272,7 @@ let run_case (toks : string list) : string =
                  done
                with Exit -> ());
               h := !cur; emit !res
+            | Note -> emit "-"
             | Snap -> emit (duart_str hs.hm.mbus.duart_)
             | Final -> emit (final_state hs.hm))) toks
    with Exit -> ());
